@@ -83,6 +83,7 @@ def shards(tier):
             d["cfg"] = cfg
             d["k"] = "seq"
             out.append(d)
+    out.append({"k": "names"})
     for sh in progs.prog_shards(["B", "S", "T"], tier):
         if sh["fam"] == "B" and (sh.get("kind") != "trees_full" or sh["size"] > (1 if tier == "quick" else 2)):
             continue
@@ -92,7 +93,23 @@ def shards(tier):
     return out
 
 
+NAME_LISTS = [["r.0", "r_0"], ["a.0", "a_0", "a.1"], ["q1", "q0"], ["x", "x_"], ["q2", "b", "q0"], ["_ret", "_ret.0", "a"], ["a", "A"],
+              ["t.0.1", "t_0_1", "t.0_1"], ["anc_0", "anc_1", "anc_0_"]]
+NAME_PROGS = [
+    "def tfun(a: Qint[2], a_0: bool) -> bool:\n    return a[0] and a_0\n",
+    "def tfun(a_1: bool, a: Qint[2]) -> bool:\n    return a[1] ^ a_1\n",
+    "def tfun(q1: bool, q0: bool) -> bool:\n    return q1 and not q0\n",
+    "def tfun(x: Tuple[bool, bool], x_0: bool, x_1: bool) -> bool:\n    return (x[0] and x_1) or (x[1] and x_0)\n",
+]
+
+
 def cases(shard):
+    if shard["k"] == "names":
+        for i, nl in enumerate(NAME_LISTS):
+            yield {"k": "names", "names": nl, "key": "C13 named qubits %s, all sequences of <= 2 gates over {x,cx,h}" % nl}
+        for src in NAME_PROGS:
+            yield {"k": "prog", "src": src, "key": "prog|" + src}
+        return
     if shard["k"] == "seq":
         cfg = shard["cfg"]
         yield {"k": "seq", "cfg": cfg, "prefix": shard["prefix"], "short": shard.get("short", False),
@@ -286,6 +303,25 @@ def run_case(case):
             rows += done
             for where, p in probs:
                 bad.append({"circuit": circs.text(A, idxs), "n": n, "export": where, "problem": p})
+            if len(bad) >= 60:
+                break
+        key = case["key"]
+    elif case["k"] == "names":
+        from qlasskit import QCircuit
+        names = case["names"]
+        n = len(names)
+        A = circs.alphabet(n, ["x", "cx", "h"])
+        for idxs in circs.seqs(A, 2, {"prefix": [], "short": False}):
+            qc = QCircuit(0, name="named")
+            for nm in names:
+                qc.add_qubit(nm)
+            circs.build(qc, [A[i] for i in idxs])
+            states += 1
+            nontriv += 1
+            probs, done = check_exports(qc, n, do_sympy=False)
+            rows += done
+            for where, p in probs:
+                bad.append({"circuit": "%s on qubits named %s" % (circs.text(A, idxs), names), "n": n, "export": where, "problem": p})
             if len(bad) >= 60:
                 break
         key = case["key"]
